@@ -375,8 +375,11 @@ void ts_subtree_summarize_children(
   for (uint32_t i = 0; i < self.ptr->child_count; i++) {
     Subtree child = children[i];
 
+    // The node depends on its column if one of the children on its first row does.
+    // (For the first child, `size` still holds what an earlier summary of this node
+    // left there.)
     if (
-      self.ptr->size.extent.row == 0 &&
+      (i == 0 || self.ptr->size.extent.row == 0) &&
       ts_subtree_depends_on_column(child)
     ) {
       self.ptr->depends_on_column = true;
